@@ -52,41 +52,84 @@ def check(cx):
                     g = p.fns.get(t)
                     if g is not None and g.kind == "closure" and any(cc.callee in status_fns for cc in g.calls()):
                         R.add(op_local({"c": c.dst}))
-        removal = [c for c in f.calls() if c.callee.endswith("Vec::<T, A>::push") and any(
-            isinstance(pe, str) and "tuples_to_remove" in pe for b in f.blocks for s in b["stmts"]
-            if s["dst"] == [op_local(c.args[0])] for pe in (s["rv"].get("p") or [])[1:])]
+        # which queue is the removal queue: the captured vector whose elements vacuum_btree hands to remove_tuple
+        pushes = [c for c in f.calls() if c.callee.endswith("Vec::<T, A>::push")]
+        par = p.raw_fns.get(f.parent or "")
+
+        def captured_local(c):
+            """local of the enclosing function behind the receiver of this push (a variable captured by reference)"""
+            if par is None or not c.args or op_local(c.args[0]) is None:
+                return None
+            idx = None
+            for l in f.provenance_locals(op_local(c.args[0])):
+                for b_ in f.blocks:
+                    for st in b_["stmts"]:
+                        if st["dst"] == [l]:
+                            for o in (st["rv"].get("o") or []) if isinstance(st["rv"].get("o"), list) else []:
+                                pl = o.get("c") or o.get("m") if isinstance(o, dict) else None
+                                if pl and pl[0] == 1 and len(pl) >= 2 and isinstance(pl[-1], str) and pl[-1].endswith(":closure"):
+                                    idx = int(pl[-1][1:].split(":")[0])
+            if idx is None:
+                return None
+            for b_ in par.blocks:
+                for st in b_["stmts"]:
+                    if st["rv"].get("r") == "agg" and st["rv"].get("akind") == "closure" and st["rv"].get("def") == f.id and idx < len(st["rv"]["o"]):
+                        r_ = op_local(st["rv"]["o"][idx])
+                        for b2 in par.blocks:
+                            for s2 in b2["stmts"]:
+                                if s2["dst"] == [r_] and s2["rv"].get("r") == "ref":
+                                    return s2["rv"]["p"][0]
+            return None
+        rm_deps = set()
+        if par is not None:
+            for c in par.calls():
+                if c.callee.endswith("::remove_tuple") or c.callee.endswith("Btree::<Acc>::remove"):
+                    a_ = c.args[-2] if len(c.args) >= 3 else None
+                    if a_ is not None and op_local(a_) is not None:
+                        rm_deps |= par.dep_closure(op_local(a_))
+        removal = [c for c in pushes if captured_local(c) is not None and captured_local(c) in rm_deps]
         if not removal:
-            # the captured vector is reached through the closure environment: take the first push as removal
-            pushes = [c for c in f.calls() if c.callee.endswith("Vec::<T, A>::push")]
             removal = pushes[:1]
+        from axvlib import absint
+        ps = absint.PathSearch(p, f)
         decides = False
-        for bi, b in enumerate(f.blocks):
-            t = b["term"]
-            if t["t"] != "switch":
-                continue
-            dl = op_local(t["o"])
-            if dl is None or not (R & (f.dep_closure(dl) | {dl})):
-                continue
-            arms = set([x[1] for x in t["targets"]] + [t["otherwise"]])
-            reach = {a: any(r.bb in f.reachable_threaded(a) for r in removal) for a in arms}
-            if len(set(reach.values())) == 2:
-                decides = True
-        cx.verdict(bool(R) and decides, r1, "deleter-fate", (xmax_c or f.calls())[0].where(),
-                   "the deleter's status (aborted?) is queried and decides whether the tuple is removed",
-                   "a tuple is removed because an xmax is present, without asking whether the deleting transaction "
-                   "committed: a row whose DELETE was rolled back is physically removed by VACUUM (D7)")
+        try:
+            for bi, b in enumerate(f.blocks):
+                t = b["term"]
+                if t["t"] != "switch":
+                    continue
+                dl = op_local(t["o"])
+                if dl is None or not (R & (f.dep_closure(dl) | {dl})):
+                    continue
+                # the arms are followed with what each one knows about the tested value: a verdict carried in an enum or
+                # a flag and taken apart later still separates the arms
+                _, outs = ps.step(bi, {})
+                reach = [any(r.bb in ps.feasible_blocks(tg, init=e2) for r in removal) for tg, e2 in outs]
+                if len(set(reach)) == 2:
+                    decides = True
+        except absint.TooManyStates:
+            decides = None
+        if decides is None:
+            cx.advisory(r1, "deleter-fate", f.where(), "path search exceeded its budget: clause not decided for this run")
+        else:
+            cx.verdict(bool(R) and decides, r1, "deleter-fate", (xmax_c or f.calls())[0].where(),
+                       "the deleter's status (aborted?) is queried and decides whether the tuple is removed",
+                       "a tuple is removed because an xmax is present, without asking whether the deleting transaction "
+                       "committed: a row whose DELETE was rolled back is physically removed by VACUUM (D7)")
 
         # a tuple changed in place by VACUUM (the rolled-back deletion mark taken off) must be queued for write-back:
         # VACUUM forgets the aborted ids afterwards, so a mark left on disk turns into a committed delete
         und = [c for c in f.calls() if c.callee == "storage::tuple::Tuple::undelete"]
-        pushes = [c for c in f.calls() if c.callee.endswith("Vec::<T, A>::push")]
         rets = [bi for bi, b in enumerate(f.blocks) if b["term"]["t"] == "ret"]
         if not und:
             cx.bad(r1, "undelete-written-back", f.where(), "vacuum no longer takes a rolled-back deletion mark off the tuple (D7)")
         else:
-            leak = f.correlated_path(0, {c.bb for c in pushes} | f.err_blocks(), rets, via={c.term["to"] for c in und})
+            try:
+                leak = ps.find_path(0, rets, kill={c.bb for c in pushes} | f.err_blocks(), via={c.term["to"] for c in und})
+            except absint.TooManyStates:
+                leak = f.correlated_path(0, {c.bb for c in pushes} | f.err_blocks(), rets, via={c.term["to"] for c in und})
             cx.verdict(leak is None, r1, "undelete-written-back", und[0].where(),
-                       "every success path after Tuple::undelete queues the tuple (tests of one unmodified flag correlated)",
+                       "every success path after Tuple::undelete queues the tuple (paths ruled out by known flags and enum variants discarded)",
                        "after Tuple::undelete the closure can return without queueing the tuple for write-back (path bb%s): "
                        "the stored tuple keeps the rolled-back deleter's mark and, once VACUUM has forgotten the aborted "
                        "ids, the row disappears" % (leak,))
